@@ -15,4 +15,6 @@ LawDevScope ==
   /\ AbsentDirection(d) => DenoteD(d, {"absent_attr_written_empty"}) # Denote(d)
 LawWs == /\ WsNorm(<<9,13,10>>, 1) = <<32,32>> /\ WsNorm(<<13,13,10,97>>, 1) = <<32,32,97>>
          /\ WsNorm(<<97,32,98>>, 1) = <<97,32,98>>
+(* constant laws: evaluated once at start-up *)
+ASSUME LawWs
 =============================================================================
